@@ -41,9 +41,28 @@ theorem C02_not (env : Env) (p : J) (v : J) (b : Bool) (hp : Spec.resolve env p 
 
 theorem C02_equals (env : Env) (x y vx vy : J) (hx : Spec.resolve env x = some vx)
     (hy : Spec.resolve env y = some vy) :
-    Spec.resolve env (.obj [("Fn::Equals", .arr [x, y])]) = some (.bool (vx == vy)) := by
+    Spec.resolve env (.obj [("Fn::Equals", .arr [x, y])]) = some (.bool (pyEqJ vx vy)) := by
   rw [resolve_fn _ _ _ (by decide), eachOf_two, hx, hy]
   unfold applyFn; simp only [ro_equals]; rfl
+
+/-- C02_equals_text: on text (the usual operands) the comparison is equality of the two strings -/
+theorem C02_equals_text (a b : String) : pyEqJ (.str a) (.str b) = (a == b) := by
+  simp only [pyEqJ]
+  by_cases h : a = b
+  · subst h; simp
+  · have hne : J.str a ≠ J.str b := fun e => h (J.str.inj e)
+    have h1 : (J.str a == J.str b) = false := by
+      cases hb : (J.str a == J.str b) with
+      | false => rfl
+      | true => exact absurd (eq_of_beq hb) hne
+    have h2 : (a == b) = false := by simpa using h
+    rw [h1, h2]
+
+/-- C02_equals_objects: two objects with the same members are equal whatever the order of the members -/
+theorem C02_equals_objects_example :
+    pyEqJ (.obj [("team", .str "data"), ("stage", .str "prod")]) (.obj [("stage", .str "prod"), ("team", .str "data")]) = true ∧
+    pyEqJ (.obj [("team", .str "data"), ("stage", .str "prod")]) (.obj [("stage", .str "dev"), ("team", .str "data")]) = false ∧
+    pyEqJ (.arr [.str "a", .str "b"]) (.arr [.str "b", .str "a"]) = false := by decide +kernel
 
 /-- C02_and_or: conjunction / disjunction of the (leniently read) booleans of all parts -/
 theorem C02_and_or (env : Env) (parts : List J) (vs : List J) (bs : List Bool)
